@@ -72,6 +72,9 @@ def _node_mutants(sp, dy):
     p = sp["p"]
     d = 0.25 if dy else 0.1
     out.append(("prim-swap", _leaf_swap(sp)))
+    if p != "Select":
+        # a Select forwards unknown attributes to its cut, so it can look like the primitive it wraps
+        out.append(("prim-wrap-select", {"p": "Select", "q": {"f": "b", "kind": "lambda"}, "cut": copy.deepcopy(sp)}))
     if p == "Bin":
         for k, v in (("num", sp["num"] + 1), ("low", sp["low"] - d), ("high", sp["high"] + d)):
             t = copy.deepcopy(sp)
@@ -97,6 +100,9 @@ def _node_mutants(sp, dy):
         t = copy.deepcopy(sp)
         t[key] = vals + [vals[-1] + 4 * d]
         out.append((key + "-add", t))
+        t = copy.deepcopy(sp)
+        t[key] = vals + [vals[-1]]  # one more bin on an existing centre / threshold: same set of values, different structure
+        out.append((key + "-duplicate", t))
         if len(vals) > (2 if p == "CentrallyBin" else 1):
             t = copy.deepcopy(sp)
             t[key] = vals[:-1]
@@ -312,7 +318,7 @@ class C10(Scenario):
         node = sp
         if path != "root":
             parts = path.split("/")
-            if what.startswith("child-type") or what.startswith("prim-swap"):
+            if what.startswith("child-type") or what.startswith("prim-swap") or what.startswith("prim-wrap"):
                 parts = parts[:-1]  # the check that should have fired is the parent's
             for name in parts:
                 try:
